@@ -33,4 +33,30 @@ theorem exec_nmi (i : Instr) (len : UInt16) (a : Arch) : (exec i len a).nmi = a.
     | rfl
     | (split <;> rfl)
 
+theorem takeInt_nmi (a : Arch) : (takeInt a).nmi = a.nmi := by
+  unfold takeInt; split
+  · unfold acceptInt; split
+    · rfl
+    · split <;> rfl
+  · rfl
+
+theorem preDispatch_nmi (a : Arch) : (preDispatch a).nmi = false := by
+  unfold preDispatch; rw [takeInt_nmi]
+  unfold takeNmi; split
+  · rfl
+  · rename_i h
+    have : (wake a).nmi = a.nmi := by unfold wake; split <;> rfl
+    rw [this] at h ⊢; simpa using h
+
+/-- no request survives a step that is not a halted idle step -/
+theorem stepArch_latches (a : Arch) (h : (a.halt && !a.wakes) = false) :
+    (stepArch a).1.int = none ∧ (stepArch a).1.nmi = false := by
+  have e : (stepArch a).1 = (dispatch (preDispatch a)).1 := by
+    simp only [stepArch, h, Bool.false_eq_true, ↓reduceIte]
+  rw [e]
+  refine ⟨rfl, ?_⟩
+  show (exec _ _ _).nmi = false
+  rw [exec_nmi]
+  exact preDispatch_nmi a
+
 end Z80
